@@ -335,8 +335,8 @@ Qed.
 
 (* ---------------- pointwise statements ---------------- *)
 
-(* what Props/C14.v quotes *)
-Lemma descriptor_loop_is_source :
+(* what Props/C14.v spells out and Props/C09.v, Props/C13.v quote by this name *)
+Definition descriptor_parsers_tie : Prop :=
   same_on_bytes parse_descriptors gen_descriptors /\
   (forall e, same_on_bytes (new_descriptor_ac3 e) (newDescriptorAC3 e)) /\
   same_on_bytes new_descriptor_avc_video newDescriptorAVCVideo /\
@@ -363,8 +363,10 @@ Lemma descriptor_loop_is_source :
   (forall e, same_on_bytes (new_descriptor_vbi_data e) (newDescriptorVBIData e)) /\
   same_on_bytes parse_dvb_duration_minutes parseDVBDurationMinutes /\
   same_on_bytes parse_dvb_duration_seconds parseDVBDurationSeconds.
+
+Lemma descriptor_loop_is_source : descriptor_parsers_tie.
 Proof.
-  repeat apply conj.
+  unfold descriptor_parsers_tie. repeat apply conj.
   - exact parse_descriptors_gen.
   - intros e. exact (sim_eq_point _ _ (new_descriptor_ac3_sim e)).
   - exact (sim_eq_point _ _ new_descriptor_avc_video_sim).
